@@ -278,7 +278,7 @@ func (fr *Frame) scanContract(w *writeSet, fc *FuncContract, sig *types.Signatur
 	}()
 	for _, t := range fr.resolveTargets(sc, fc.Modifies) {
 		switch {
-		case t.all, t.pkgHeaps != "", t.heapName != "":
+		case t.all, t.pkgHeaps != "", t.heapName != "", t.mapOf != "":
 			w.all = true
 		case t.isElems:
 			for hn := range t.eHeaps {
